@@ -24,7 +24,7 @@ PROFILES = {
                     "C12.pack_raises_only_PacketError", "C12.str_total", "C12.phase", "C12.silent",
                     "C12.not_bytes", "C04_OverAccept"},
              rand="mixed", c01=False, bonus=1, nrand=(800, 8000)),
- "C04": dict(universes=["U_C06", "U_C07_24", "U_C12", "U_C04_Lone", "U_Long", "U_LongC06"], invs=["Inv_Machine", "Inv_C04_Exact"],
+ "C04": dict(universes=["U_C06", "U_C07_24", "U_C12", "U_C04_Lone", "U_Long", "U_LongC06", "U_Wide"], invs=["Inv_Machine", "Inv_C04_Exact"],
              owned={"C04_Exact", "C04_OverAccept"}, rand="mixed", c01=False, bonus=1, nrand=(800, 8000)),
  "C01": dict(universes=["U_C01", "U_LongC01"], quick_universes=["U_C01_Q", "U_LongC01"], invs=["Inv_Machine", "Inv_C01_Bytes", "Inv_C01_Fill", "Inv_C01_Len",
                                         "Inv_C01_OverlapRaises", "Inv_C01_RaiseOnlyOnOverlap"],
